@@ -14,7 +14,7 @@ Dbs0 == UNION {{(ka :> va) @@ (kb :> vb) : va \in ValA, vb \in ValB}, {(ka :> va
 StrStates == {WithDb0(InitServer({1}), d) : d \in Dbs0}
 
 \* INCRBYFLOAT on +-2^63 is numeric accuracy (float64 vs long double), not claimed
-StrRelevant(s, cmd) == ~(CmdName(cmd) = "INCRBYFLOAT" /\ ka \in DOMAIN s.dbs[0] /\ s.dbs[0][ka].ty = "string" /\ Len(s.dbs[0][ka].s) > 9)
+StrRelevant(s, cmd) == ~(CmdName(cmd) = "INCRBYFLOAT" /\ Len(cmd) >= 2 /\ cmd[2] \in DOMAIN s.dbs[0] /\ s.dbs[0][cmd[2]].ty = "string" /\ Len(s.dbs[0][cmd[2]].s) > 9)
 SetOptU == { <<>>, <<W("NX")>>, <<W("XX")>>, <<W("GET")>>, <<W("nx")>>, <<W("KEEPTTL")>>, <<W("keepttl")>>,
              <<W("EX"), N(100)>>, <<W("px"), N(100000)>>, <<W("EXAT"), TMark(Fut)>>, <<W("PXAT"), MMark(Fut)>>,
              <<W("NX"), W("GET")>>, <<W("GET"), W("XX")>>, <<W("EX"), N(100), W("NX")>>, <<W("NX"), W("EX"), N(100)>>,
